@@ -47,6 +47,14 @@ def bare(cls, **attrs):
     return o
 
 
+def made(cls, _data, **kw):
+    """Section object built by its real constructor (whatever __init__ sets
+    up exists), then given the (symbolic) region as its data."""
+    o = cls(data=b'', version=kw.pop('version', 8), **kw)
+    o._data = _data
+    return o
+
+
 def rat_eq(v, num, den):
     """v (float natively, SRat symbolically) equals num/den exactly."""
     if isinstance(v, core.SRat):
